@@ -2,7 +2,7 @@
    ExtrOcamlBasic only. *)
 From Coq Require Import ZArith List Extraction ExtrOcamlBasic.
 From MomoCommon Require Import GenPrelude.
-From C05 Require ArrayShift ArrayModel Gen_Grow Gen_GuardsShifter Gen_GuardsArray Gen_GuardsSeg Gen_ShiftLoops Gen_IndexOf InsertGlue FactsProofs.
+From C05 Require ArrayShift ArrayModel Gen_Grow Gen_GuardsShifter Gen_GuardsArray Gen_GuardsSeg Gen_ShiftLoops Gen_ShiftLoopsSeg Gen_IndexOf InsertGlue FactsProofs.
 Extraction Blacklist String.
 Separate Extraction
   ArrayModel.run_op ArrayModel.array_empty ArrayModel.observe ArrayModel.body ArrayModel.allocs
@@ -11,4 +11,5 @@ Separate Extraction
   Gen_GuardsShifter.Remove_guard Gen_GuardsShifter.InsertNogrow_guard
   Gen_GuardsArray.Insert_prefix Gen_GuardsArray.RemoveBack_guard Gen_GuardsArray.AddBackNogrowCrt_guard Gen_GuardsArray.index_guard
   Gen_GuardsSeg.SegInsert_guard Gen_GuardsSeg.SegRemoveBack_guard
+  Gen_GuardsArray.Shrink_clamp Gen_GuardsSeg.SegShrink_clamp Gen_ShiftLoopsSeg.ShiftRemove Gen_ShiftLoopsSeg.ShiftInsert
   Gen_ShiftLoops.ShiftRemove Gen_ShiftLoops.ShiftInsert Gen_IndexOf.pvIndexOf InsertGlue.gen_array_insert FactsProofs.gen_array_insert_f FactsProofs.gen_add_back_f FactsProofs.gen_add_back_move_f.
